@@ -252,6 +252,9 @@ func FaultScenarios(seed int64) map[string]func() protomc.Scenario {
 		"ecdsa-keygen-3":  func() protomc.Scenario { return EcKeygen("small", 3, 1, seed) },
 		"ecdsa-resharing": func() protomc.Scenario { return EcResharing(2, 1, []int{0, 1}, 2, 1, seed, false) },
 		"ecdsa-resharing-3new": func() protomc.Scenario { return EcResharing(2, 1, []int{0, 1}, 3, 1, seed, false) },
+		// more old members taking part than the old threshold requires (t+2 of them)
+		"ecdsa-resharing-3old": func() protomc.Scenario { return EcResharing(3, 1, []int{0, 1, 2}, 2, 1, seed, false) },
+		"eddsa-resharing-3old": func() protomc.Scenario { return EdResharing(3, 1, []int{0, 1, 2}, 2, 1, seed) },
 		// the same configurations with Parameters.SetConcurrency(1) (legal: ">= 1"): one verification slot
 		"ecdsa-keygen-conc1": func() protomc.Scenario {
 			sc := EcKeygen("small", 2, 1, seed)
